@@ -184,6 +184,7 @@ def sources(ctx):
             out.append(('rnd%d' % i, r[0]))
     out += scopegen.random_programs(ctx.rng, ctx.scale(60, 1500))
     out += scopegen.parameter_programs() + scopegen.declaration_programs() + scopegen.import_programs()
+    out += scopegen.capture_programs() + scopegen.class_import_programs()[::(1 if ctx.tier == 'thorough' else 3)]
     short = scopegen.short_named(sg[:ctx.scale(100, 2500)])
     out += short
     ctx._c08_rest = rest_of_exhaustive
